@@ -133,6 +133,8 @@ class Ctx:
             return VElemList(t)
         if k == 'seq':
             return VSeq(t, kind[1])
+        if k == 'stack':
+            return VStack(t, kind[1])
         raise OutOfReach(f'val_of {kind}')
 
     # ------------------------------------------------------------------ heap
